@@ -7,6 +7,7 @@ Core-only so that it links as an executable.
 import Shutter.Drive.App
 import Shutter.Spec.SaveFile
 import Shutter.Drive.Events
+import Shutter.Drive.TriggerDef
 
 open Shutter
 
@@ -18,6 +19,7 @@ def dispatch (st : DState) (line : String) : DState × String :=
   | "APP" :: rest =>
     let (a, out) := Drive.App.step st.app rest
     ({ st with app := a }, out)
+  | "TD" :: rest => (st, Drive.TriggerDef.step rest)
   | "EV" :: rest => (st, Drive.Events.step rest)
   | "SAVE" :: rest => (st, SaveFile.driverStep rest)
   | _ => (st, "bad-model")
